@@ -342,3 +342,15 @@ Definition prompt_case (o : top) (n : nat) : option (list tlab * list tout) :=
 
 (* the _at forms: the time remaining until the configured instant, zero if it has passed *)
 Definition remaining (at_instant now_instant : Z) : Z := Z.max 0 (at_instant - now_instant)%Z.
+
+(* C17 on timed traces: once is_closed() has answered true, no delivery follows and it never
+   answers false again *)
+Fixpoint closed_sound_walk (seen_closed : bool) (out : list tout) : bool :=
+  match out with
+  | [] => true
+  | TOut _ _ :: r => negb seen_closed && closed_sound_walk seen_closed r
+  | TRet b :: r => (b || negb seen_closed) && closed_sound_walk (seen_closed || b) r
+  | _ :: r => closed_sound_walk seen_closed r
+  end.
+
+Definition closed_sound_ok (out : list tout) : bool := closed_sound_walk false out.
